@@ -9,7 +9,7 @@ from pbt.util import call
 ID = "C18"
 TITLE = "fit stays inside the box and never returns something worse than its start"
 RULE = ("Loss cases from the C06 generator (in 2 of 4 cases a pygom.common_models entry, else benign generated ODE models; mode "
-        "'zero-bound': one side of the box is exactly 0 or 0.0 and the generating value lies beyond it, so the bound must be active; all five loss classes, observed-state selections, optional target_param subset) "
+        "'zero-bound': one side of the box is exactly 0 or 0.0 and the generating value lies beyond it, so the bound must be active; bounds as lists, tuples, float arrays, or whole-number lower bounds as Python ints / an integer typed array; all five loss classes, observed-state selections, optional target_param subset) "
         "with data generated at theta*, a box lb < ub around theta* per free parameter (factors in [0.3,0.95] and [1.05,3]; optionally a bound "
         "placed exactly at or within 10% of the start so that it is active) and a start inside the box. Oracle: xhat = fit(start, lb, ub) satisfies "
         "lb <= xhat <= ub elementwise (no tolerance); reference cost(xhat) <= reference cost(start)*(1+1e-9) and the same with the object's own cost; "
